@@ -170,7 +170,7 @@ func newHist(id int, mode string, r *gen.R, tr *gen.Trace) *Hist {
 			if mode == "c19" && id%4 == 2 && i == nGen-1 {
 				// a genesis file exported while an unstake was pending: InitGenesis leaves these tokens out of the pool
 				v.Status, v.Jailed = sdk.Unstaking, false
-				v.UnstakingCompletionTime = gt.Add(3 * time.Hour)
+				v.UnstakingCompletionTime = gt.Add(40 * time.Hour) // (not before the untraced block 1 is over)
 			}
 			g.Nodes.Validators = append(g.Nodes.Validators, v)
 		}
@@ -244,6 +244,9 @@ func (h *Hist) block(codes map[string]int) {
 	step := []time.Duration{time.Second, 20 * time.Second, time.Minute, 3 * time.Minute, 7 * time.Minute, time.Hour, 31 * time.Hour}[r.Intn(7)]
 	if h.script != nil {
 		step = h.script.step
+	}
+	if h.silent {
+		step = time.Minute
 	}
 	h.t = h.t.Add(step)
 	bt := h.t.UTC()
